@@ -13,7 +13,7 @@ directly above `#[kani::proof]`.
 import os
 import re
 
-from weave import VERIF, HOSTS
+from weave import VERIF, HOSTS, harness_file
 
 
 class Harness:
@@ -40,9 +40,10 @@ class Harness:
 def load():
     out = []
     for engine, hosts in HOSTS.items():
-        hdir = os.path.join(VERIF, "harness", engine)
         for mod in hosts:
-            path = os.path.join(hdir, mod + ".rs")
+            path = harness_file(engine, mod)
+            if engine == "small" and mod == "support":
+                continue
             if not os.path.exists(path):
                 continue
             with open(path) as f:
